@@ -1258,6 +1258,31 @@ func viewEvent(toks []vtok, sortMode string) (rec map[string]any, note string) {
 	variant("str", "FilterStrings", listContent(l.FilterStrings(func(string) bool { return yes() })))
 	variant("int", "FilterInts", listContent(l.FilterInts(func(int) bool { return yes() })))
 	variant("float", "FilterFloats", listContent(l.FilterFloats(func(float64) bool { return yes() })))
+	// predicates with a memory (keep every other call): every selected element is handed over exactly once, in order
+	calls := 0
+	odd := func() bool { calls++; return calls%2 == 1 }
+	oddOf := func(xs []any) []any {
+		var out []any
+		for i, x := range xs {
+			if i%2 == 0 {
+				out = append(out, x)
+			}
+		}
+		return out
+	}
+	stateful := func(kind, name string, run func() []any) {
+		calls = 0
+		got := run()
+		if calls != len(slices[kind]) || !eqAny(got, oddOf(slices[kind])) {
+			slices[kind] = append([]any{"corrupt"}, got...) // TLC will reject it
+			note += fmt.Sprintf("%s with a predicate that keeps every other call: %d calls for %d elements, or a wrong selection; ", name, calls, len(slices[kind])-1)
+		}
+	}
+	stateful("O", "FilterObjects", func() []any { return listContent(l.FilterObjects(func(at.Object) bool { return odd() })) })
+	stateful("L", "FilterLists", func() []any { return listContent(l.FilterLists(func(at.List) bool { return odd() })) })
+	stateful("str", "FilterStrings", func() []any { return listContent(l.FilterStrings(func(string) bool { return odd() })) })
+	stateful("int", "FilterInts", func() []any { return listContent(l.FilterInts(func(int) bool { return odd() })) })
+	stateful("float", "FilterFloats", func() []any { return listContent(l.FilterFloats(func(float64) bool { return odd() })) })
 	variant("O", "MapObjects", listContent(l.MapObjects(func(x at.Object) any { return x })))
 	variant("L", "MapLists", listContent(l.MapLists(func(x at.List) any { return x })))
 	variant("str", "MapStrings", listContent(l.MapStrings(func(x string) any { return x })))
@@ -1282,6 +1307,11 @@ func viewEvent(toks []vtok, sortMode string) (rec map[string]any, note string) {
 			whole = got
 			note += name + " does not reproduce the list; "
 		}
+	}
+	calls = 0
+	if got := listContent(l.Filter(func(any) bool { return odd() })); calls != len(vals) || !eqAny(got, oddOf(vals)) {
+		whole = nil
+		note += fmt.Sprintf("Filter with a predicate that keeps every other call: %d calls for %d elements, or a wrong selection; ", calls, len(vals))
 	}
 	var idx []int
 	l.ForEach(func(i int, _ any) { idx = append(idx, i) })
@@ -1413,6 +1443,23 @@ func cmdViewTrace(args []string) int {
 		w.Write(b)
 		w.WriteByte('\n')
 		events++
+	}
+	// a few very long lists in every tier (thresholds of block-wise / parallel implementations): kept few because TLC's
+	// cost per recorded list grows faster than its length
+	switch *family {
+	case "views":
+		for _, n := range []int{4099, 4102} {
+			for _, k := range []vtok{{"O", 1}, {"str", 2}, {"float", 2}} {
+				one := pick([]vtok{{"int", 1}, {"int", 2}}, n)
+				one[n-1-rng.Intn(3)] = k
+				emit(one, "id")
+			}
+		}
+	case "sort":
+		for _, n := range []int{2051, 4100} {
+			emit(pick(ints, n), "id")
+			emit(pick(strs, n), "id")
+		}
 	}
 	for _, n := range sizes {
 		switch *family {
